@@ -47,11 +47,11 @@ func (dm *defaultMkdirerPipeline) worker(ctx context.Context, wg *sync.WaitGroup
 				return
 			}
 			if dm.isExistRoot([]*Node{root}) {
-				errc <- ErrExistPath
+				sendErr(ctx, errc, ErrExistPath)
 				return
 			}
 			if err := dm.makeDirectoriesAndFiles(root); err != nil {
-				errc <- err
+				sendErr(ctx, errc, err)
 				return
 			}
 		}
